@@ -423,7 +423,7 @@ static RCP<const Basic> piece(Rng &r, int depth)
 void hx_gen(Rng &rng, const std::string &tier)
 {
     bool thorough = tier == "thorough";
-    int n = thorough ? 40000 : 3000;
+    int n = thorough ? 20000 : 3000;
     for (int i = 0; i < n; i++) {
         vec_basic stmts;
         RCP<const Basic> e;
